@@ -273,8 +273,13 @@ class FieldMappingTransformationBase(DetectionItemTransformation):
         new_values: list[SigmaType] = []
         fieldref_match = False
         for value in detection_item.value:
-            if isinstance(value, SigmaFieldReference) and (
-                self.processing_item is None or self.processing_item.match_field_in_value(value)
+            if (
+                isinstance(value, SigmaFieldReference)
+                and self.apply_field_name(value.field) is not None
+                and (
+                    self.processing_item is None
+                    or self.processing_item.match_field_in_value(value)
+                )
             ):
                 new_values.extend(
                     (
